@@ -15,5 +15,6 @@ for fs in "std,cache-type-score,fix-weight-length,charwise-pma,tag-prediction" "
 done
 # C08: nightly probe crate (interior mutability of Predictor)
 ( cargo +nightly build --release --offline -q --manifest-path /verif/harness/vp-freeze/Cargo.toml --target-dir /verif/target/freeze 2>&1 | tail -1 ) &
+( /verif/tools/loomprep.sh > /dev/null 2>&1 && cargo build --release --offline -q --manifest-path /verif/harness/vp-loom/Cargo.toml --target-dir /verif/target/loom 2>&1 | tail -1 ) &
 wait
 echo "setup done"
